@@ -13,6 +13,8 @@ type Entry struct {
 	File *ir.File
 	Cfg  *ir.Config
 	Tags []string
+	// ExtraParams: plugin parameters given in addition to the YAML file (both channels set the option).
+	ExtraParams []string
 	// Pinned: exclusions the entry's name overrides depend on (kept by OptionVariant).
 	Pinned []string
 }
@@ -336,6 +338,15 @@ func K9() *Entry {
 	c.UseStateForUnknown = true
 	c.ComputedFields = []string{"User.Title", "Meta.Revision", "User.Spec.Level"}
 	c.PlanModifiers = map[string][]string{"User.Title": {PM("t1"), PM("t2")}, "User.Spec.Level": {PM("l1"), USFU, PM("l2")}}
+	// comments of selected messages that look like Go comment syntax
+	for _, m := range f.Messages {
+		switch m.Name {
+		case "User":
+			m.Comment, m.HasComment = " /* DEPRECATED: use UserV2 */ User is kept for compatibility\n", true
+		case "Meta":
+			m.Comment, m.HasComment = " // Meta closes nothing */ and opens /* nothing\n", true
+		}
+	}
 	// a path-specific exclusion below a nested occurrence of an exported type
 	c.ExcludeFields = []string{"Pref.Meta.Labels", "User.Spec.Meta.Owner.Email"}
 	// an explicit empty list under a full path switches off what the Message.Field key configures
